@@ -62,6 +62,7 @@ type MarkdownWriter struct {
 	output    strings.Builder
 	imageNum  int
 	footnotes []string
+	lastBlock string // 上一个输出的块的类型：code、list、table 或其他
 }
 
 // Write 生成Markdown内容
@@ -71,10 +72,17 @@ func (w *MarkdownWriter) Write() ([]byte, error) {
 		w.writeMetadata()
 	}
 
-	// 遍历文档段落
+	// 按正文中的顺序遍历段落和表格（表格不再统一放到所有段落之后）
 	if w.doc.Body != nil {
-		for _, para := range w.doc.Body.GetParagraphs() {
-			err := w.writeParagraph(para)
+		for _, element := range w.doc.Body.Elements {
+			var err error
+			switch elem := element.(type) {
+			case *document.Paragraph:
+				err = w.writeParagraph(elem)
+			case *document.Table:
+				w.beginBlock("table")
+				err = w.writeTable(elem)
+			}
 			if err != nil {
 				if w.opts.ErrorCallback != nil {
 					w.opts.ErrorCallback(err)
@@ -84,19 +92,7 @@ func (w *MarkdownWriter) Write() ([]byte, error) {
 				}
 			}
 		}
-
-		// 处理表格
-		for _, table := range w.doc.Body.GetTables() {
-			err := w.writeTable(table)
-			if err != nil {
-				if w.opts.ErrorCallback != nil {
-					w.opts.ErrorCallback(err)
-				}
-				if !w.opts.IgnoreErrors {
-					return nil, err
-				}
-			}
-		}
+		w.beginBlock("")
 	}
 
 	// 添加脚注
@@ -105,6 +101,21 @@ func (w *MarkdownWriter) Write() ([]byte, error) {
 	}
 
 	return []byte(w.output.String()), nil
+}
+
+// beginBlock 在开始输出一个新的块之前调用：结束上一个块（代码围栏、列表）并保证块之间有空行。
+// kind 为空表示文档结束。连续的代码段落属于同一个围栏，连续的列表项之间不加空行。
+func (w *MarkdownWriter) beginBlock(kind string) {
+	if w.lastBlock == "code" && kind != "code" {
+		w.output.WriteString("```\n\n")
+	}
+	if w.lastBlock == "list" && kind != "list" {
+		w.output.WriteString("\n")
+	}
+	if kind == "code" && w.lastBlock != "code" {
+		w.output.WriteString("```" + w.opts.DefaultCodeLang + "\n")
+	}
+	w.lastBlock = kind
 }
 
 // writeMetadata 写入文档元数据
@@ -125,17 +136,36 @@ func (w *MarkdownWriter) writeParagraph(para *document.Paragraph) error {
 
 	switch {
 	case strings.HasPrefix(style, "Heading"):
+		w.beginBlock("heading")
 		return w.writeHeading(para, style)
 	case style == "Quote":
+		w.beginBlock("quote")
 		return w.writeQuote(para)
 	case style == "CodeBlock":
 		return w.writeCodeBlock(para)
 	case w.isListParagraph(para):
 		return w.writeListItem(para)
 	default:
+		if strings.TrimSpace(w.plainParagraphText(para)) == "" {
+			// 空段落在Markdown中没有对应物：不输出，块之间的空行由 beginBlock 负责
+			return nil
+		}
+		w.beginBlock("paragraph")
 		return w.writeNormalParagraph(para)
 	}
 }
+
+// plainParagraphText 返回段落的纯文本（不带任何Markdown标记）
+func (w *MarkdownWriter) plainParagraphText(para *document.Paragraph) string {
+	var result strings.Builder
+	for _, run := range para.Runs {
+		result.WriteString(run.Text.Content)
+	}
+	return result.String()
+}
+
+// listGlyphPattern 识别用符号模拟的列表项（Markdown转换器生成的 "• 文本"、"☐ 文本"、"☑ 文本"）
+var listGlyphPattern = regexp.MustCompile(`^(\s*)(•|☐|☑) `)
 
 // writeHeading 写入标题
 func (w *MarkdownWriter) writeHeading(para *document.Paragraph, style string) error {
@@ -144,8 +174,8 @@ func (w *MarkdownWriter) writeHeading(para *document.Paragraph, style string) er
 		level = 6
 	}
 
-	text := w.extractParagraphText(para)
-	if strings.TrimSpace(text) == "" {
+	text := strings.TrimSpace(w.extractParagraphText(para))
+	if text == "" {
 		return nil
 	}
 
@@ -153,9 +183,9 @@ func (w *MarkdownWriter) writeHeading(para *document.Paragraph, style string) er
 		// 使用Setext样式
 		w.output.WriteString(text + "\n")
 		if level == 1 {
-			w.output.WriteString(strings.Repeat("=", len(text)) + "\n\n")
+			w.output.WriteString(strings.Repeat("=", setextLength(text)) + "\n\n")
 		} else {
-			w.output.WriteString(strings.Repeat("-", len(text)) + "\n\n")
+			w.output.WriteString(strings.Repeat("-", setextLength(text)) + "\n\n")
 		}
 	} else {
 		// 使用ATX样式
@@ -174,26 +204,33 @@ func (w *MarkdownWriter) writeQuote(para *document.Paragraph) error {
 
 	lines := strings.Split(text, "\n")
 	for _, line := range lines {
-		w.output.WriteString("> " + line + "\n")
+		w.output.WriteString("> " + escapeLineStart(strings.TrimSpace(line)) + "\n")
 	}
 	w.output.WriteString("\n")
 
 	return nil
 }
 
-// writeCodeBlock 写入代码块
+// writeCodeBlock 写入代码块：连续的代码段落输出到同一个围栏里，文本原样输出
 func (w *MarkdownWriter) writeCodeBlock(para *document.Paragraph) error {
-	text := w.extractParagraphText(para)
-	if strings.TrimSpace(text) == "" {
+	text := w.plainParagraphText(para)
+	if strings.TrimSpace(text) == "" && w.lastBlock != "code" {
 		return nil
 	}
 
-	lang := w.opts.DefaultCodeLang
-	w.output.WriteString("```" + lang + "\n")
+	w.beginBlock("code")
 	w.output.WriteString(text + "\n")
-	w.output.WriteString("```\n\n")
 
 	return nil
+}
+
+// setextLength 返回Setext标题下划线的长度（按字符数，至少3个）
+func setextLength(text string) int {
+	n := len([]rune(text))
+	if n < 3 {
+		n = 3
+	}
+	return n
 }
 
 // writeListItem 写入列表项
@@ -209,7 +246,28 @@ func (w *MarkdownWriter) writeListItem(para *document.Paragraph) error {
 		marker = "1."
 	}
 
-	w.output.WriteString(marker + " " + text + "\n")
+	// 用符号模拟的列表项：符号换成Markdown标记，缩进表示嵌套层级
+	indent := ""
+	if match := listGlyphPattern.FindStringSubmatch(w.plainParagraphText(para)); match != nil {
+		indent = strings.Repeat("  ", len(match[1])/2)
+		text = strings.TrimLeft(text, " ")
+		switch match[2] {
+		case "☐":
+			text = "[ ] " + strings.TrimPrefix(text, "☐ ")
+		case "☑":
+			text = "[x] " + strings.TrimPrefix(text, "☑ ")
+		default:
+			text = strings.TrimPrefix(text, "• ")
+		}
+	}
+
+	w.beginBlock("list")
+	text = strings.TrimSpace(text)
+	if !strings.HasPrefix(text, "[ ] ") && !strings.HasPrefix(text, "[x] ") {
+		// 列表项文字开头的 "1." "-" ">" 等会被当作嵌套的列表或引用
+		text = escapeLineStart(text)
+	}
+	w.output.WriteString(indent + marker + " " + text + "\n")
 
 	return nil
 }
@@ -218,7 +276,6 @@ func (w *MarkdownWriter) writeListItem(para *document.Paragraph) error {
 func (w *MarkdownWriter) writeNormalParagraph(para *document.Paragraph) error {
 	text := w.extractParagraphText(para)
 	if strings.TrimSpace(text) == "" {
-		w.output.WriteString("\n")
 		return nil
 	}
 
@@ -227,9 +284,38 @@ func (w *MarkdownWriter) writeNormalParagraph(para *document.Paragraph) error {
 		text = w.wrapText(text, w.opts.MaxLineLength)
 	}
 
-	w.output.WriteString(text + "\n\n")
+	// 行首的 #、>、-、+、数字加点 会被当作标题、引用或列表：逐行转义
+	// 首尾空白在Markdown里没有意义（行首4个空格是代码块，行尾两个空格是硬换行）：去掉
+	lines := strings.Split(strings.TrimSpace(text), "\n")
+	for i := range lines {
+		lines[i] = escapeLineStart(strings.TrimSpace(lines[i]))
+	}
+
+	w.output.WriteString(strings.Join(lines, "\n") + "\n\n")
 
 	return nil
+}
+
+// lineStartPattern 匹配行首会被解释为块级语法的内容
+var lineStartPattern = regexp.MustCompile(`^(\s*)(#{1,6}(\s|$)|>|[-+](\s|$)|\d+[.)](\s|$)|(=+|-+)\s*$)`)
+
+// escapeLineStart 转义行首的块级语法标记
+func escapeLineStart(line string) string {
+	loc := lineStartPattern.FindStringSubmatchIndex(line)
+	if loc == nil {
+		return line
+	}
+	start := loc[3] // 缩进之后的第一个字符
+	rest := line[start:]
+	if rest[0] >= '0' && rest[0] <= '9' {
+		// 有序列表：转义数字后面的分隔符
+		k := 0
+		for k < len(rest) && rest[k] >= '0' && rest[k] <= '9' {
+			k++
+		}
+		return line[:start] + rest[:k] + "\\" + rest[k:]
+	}
+	return line[:start] + "\\" + rest
 }
 
 // writeTable 写入表格
@@ -249,7 +335,8 @@ func (w *MarkdownWriter) writeTable(table *document.Table) error {
 		headerRow := rows[0]
 		w.output.WriteString("|")
 		for _, cell := range headerRow.Cells {
-			text := w.extractCellText(&cell)
+			// 表头在Markdown里本来就是强调显示的：不再给表头文字加粗体标记
+			text := w.extractHeaderCellText(&cell)
 			w.output.WriteString(" " + text + " |")
 		}
 		w.output.WriteString("\n")
@@ -318,14 +405,29 @@ func (w *MarkdownWriter) extractParagraphText(para *document.Paragraph) string {
 
 	for _, run := range para.Runs {
 		text := w.formatRunText(&run)
+		// Markdown不区分连续的空白：相邻Run交界处的空白只保留一个
+		if strings.HasPrefix(text, " ") && strings.HasSuffix(result.String(), " ") {
+			text = strings.TrimLeft(text, " ")
+		}
 		result.WriteString(text)
 	}
 
 	return result.String()
 }
 
+// markdownEscaper 转义在行内有Markdown含义的字符，使文本原样显示
+var markdownEscaper = strings.NewReplacer(
+	"\\", "\\\\", "`", "\\`", "*", "\\*", "_", "\\_", "~", "\\~", "|", "\\|",
+	"[", "\\[", "]", "\\]", "<", "\\<", ">", "\\>", "#", "\\#", "$", "\\$",
+)
+
 // formatRunText 格式化文本运行
 func (w *MarkdownWriter) formatRunText(run *document.Run) string {
+	return w.formatRunTextWith(run, true)
+}
+
+// formatRunTextWith 格式化文本运行；emphasis 为 false 时不输出粗体/斜体标记（用于表头）
+func (w *MarkdownWriter) formatRunTextWith(run *document.Run, emphasis bool) string {
 	if run == nil {
 		return ""
 	}
@@ -335,31 +437,101 @@ func (w *MarkdownWriter) formatRunText(run *document.Run) string {
 		return ""
 	}
 
+	// 标记必须紧贴文字：首尾的空白放到标记外面
+	trimmed := strings.TrimSpace(text)
+	if trimmed == "" {
+		return " "
+	}
+	if run.Properties == nil {
+		// 没有格式：只需转义；连续的空白写成一个空格
+		plain := markdownEscaper.Replace(strings.Join(strings.Fields(trimmed), " "))
+		if text[0] == ' ' || text[0] == '\t' || text[0] == '\n' {
+			plain = " " + plain
+		}
+		if last := text[len(text)-1]; last == ' ' || last == '\t' || last == '\n' {
+			plain += " "
+		}
+		return plain
+	}
+	lead := text[:strings.Index(text, trimmed)]
+	trail := text[len(lead)+len(trimmed):]
+
+	// 开启自动换行时，换行可能落在一个带格式的Run中间；为了让标记不被拆到两行，
+	// 含有空白的Run按词分别加标记（"**a b**" 输出为 "**a** **b**"）
+	if w.opts.WrapLongLines && strings.ContainsAny(trimmed, " \t\n") {
+		words := strings.Fields(trimmed)
+		parts := make([]string, 0, len(words))
+		for _, word := range words {
+			single := *run
+			single.Text.Content = word
+			parts = append(parts, w.formatRunTextWith(&single, emphasis))
+		}
+		if lead != "" {
+			lead = " "
+		}
+		if trail != "" {
+			trail = " "
+		}
+		return lead + strings.Join(parts, " ") + trail
+	}
+
+	// 处理代码样式：代码内容原样输出
+	if w.isCodeStyle(run.Properties) {
+		fence := "`"
+		for strings.Contains(trimmed, fence) {
+			fence += "`"
+		}
+		pad := ""
+		if strings.HasPrefix(trimmed, "`") || strings.HasSuffix(trimmed, "`") {
+			pad = " "
+		}
+		trimmed = fence + pad + trimmed + pad + fence
+	} else {
+		// Markdown不区分连续的空白：文字中的连续空白写成一个空格
+		trimmed = markdownEscaper.Replace(strings.Join(strings.Fields(trimmed), " "))
+	}
+
 	// 检查格式属性
-	if run.Properties != nil {
+	if emphasis {
 		// 检查粗体
 		if run.Properties.Bold != nil {
 			if run.Properties.Italic != nil {
-				text = "***" + text + "***" // 粗斜体
+				trimmed = "***" + trimmed + "***" // 粗斜体
 			} else {
-				text = "**" + text + "**" // 粗体
+				trimmed = "**" + trimmed + "**" // 粗体
 			}
 		} else if run.Properties.Italic != nil {
-			text = w.opts.EmphasisMarker + text + w.opts.EmphasisMarker // 斜体
-		}
-
-		// 检查删除线
-		if run.Properties.Strike != nil {
-			text = "~~" + text + "~~" // 删除线
-		}
-
-		// 处理代码样式
-		if w.isCodeStyle(run.Properties) {
-			text = "`" + text + "`"
+			trimmed = w.opts.EmphasisMarker + trimmed + w.opts.EmphasisMarker // 斜体
 		}
 	}
 
-	return text
+	// 检查删除线
+	if run.Properties.Strike != nil {
+		// 删除线标记旁边的转义波浪号（\~）不能被可靠地解析：删除线文字里的波浪号写成字符实体
+		trimmed = "~~" + strings.ReplaceAll(trimmed, "\\~", "&#126;") + "~~" // 删除线
+	}
+
+	if lead != "" {
+		lead = " "
+	}
+	if trail != "" {
+		trail = " "
+	}
+	return lead + trimmed + trail
+}
+
+// extractHeaderCellText 提取表头单元格文本（不带粗体/斜体标记）
+func (w *MarkdownWriter) extractHeaderCellText(cell *document.TableCell) string {
+	if cell == nil {
+		return ""
+	}
+	var result strings.Builder
+	for _, para := range cell.Paragraphs {
+		for i := range para.Runs {
+			result.WriteString(w.formatRunTextWith(&para.Runs[i], false))
+		}
+	}
+	return strings.TrimSpace(strings.ReplaceAll(result.String(), "\n", " "))
 }
 
 // extractCellText 提取单元格文本
@@ -406,10 +578,10 @@ func (w *MarkdownWriter) getHeadingLevel(style string) int {
 
 // isListParagraph 判断是否为列表段落
 func (w *MarkdownWriter) isListParagraph(para *document.Paragraph) bool {
-	if para.Properties == nil {
-		return false
+	if para.Properties != nil && para.Properties.NumberingProperties != nil {
+		return true
 	}
-	return para.Properties.NumberingProperties != nil
+	return listGlyphPattern.MatchString(w.plainParagraphText(para))
 }
 
 // isNumberedList 判断是否为编号列表
